@@ -15,6 +15,7 @@ Op == CASE E.op = "Start" -> Start
         [] E.op = "Cancel" -> Cancel
         [] E.op = "Crash" -> Crash
         [] E.op = "Again" -> Again(E.c)
+        [] E.op = "Freeze" -> Freeze
         [] OTHER -> FALSE
 
 TNext ==
